@@ -38,10 +38,10 @@ BUDGET = {'quick': 400, 'thorough': 2400}
 POOLS = {
     ('vec', 'row'): ['A', 'D', 'k', 'V', 'Tz', 'I3'],
     ('vec', 'col'): ['A', 'W', 'P', 'U', 'Rs', 'D', 'k'],
-    ('vec', 'diag'): ['A', 'W', 'V', 'D', 'k', 'P', 'Mk', 'Bd'],
+    ('vec', 'diag'): ['A', 'W', 'V', 'D', 'k', 'P', 'Mk', 'Bd', 'I3'],
     ('tree', 'row'): ['k', 'D', 'Et', 'I'],
     ('tree', 'col'): ['k', 'D', 'Et', 'E', 'Rv', 'Ix'],
-    ('tree', 'diag'): ['k', 'D', 'E', 'Rv', 'Ix'],
+    ('tree', 'diag'): ['k', 'D', 'E', 'Rv', 'Ix', 'I'],
 }
 CONTAINERS = ['list', 'tuple', 'dict', 'nest']
 INVERTIBLE = {'vec': ['k', 'D', 'I3'], 'tree': ['k', 'D', 'I']}
@@ -245,6 +245,11 @@ def run_case(key, twin=False):
         if not structs_equal(ts, xin):
             return violation(f'T.mv of {show(e)} returns {describe_struct(ts)}', signature=f'c10-T-struct:{kind}:{cont}:{n}', kind='T-struct')
         res.append(('adjoint', dec.decide(ctx, [(inner(got, y), inner(x, aty))], assumptions=assume)))
+        # reduce() of the block operator itself (blocks reduced one by one; a block diagonal of identities is the identity)
+        red, rs, _ = E.run(ctx, lambda p, x: bld.build(e, list(p)).reduce().mv(x), [('p', pst, 'sym'), ('x', xin, 'sym')])
+        if not structs_equal(rs, yout):
+            return violation(f'reduce() of {show(e)} maps to {describe_struct(rs)}, declared {describe_struct(yout)}', signature=f'c10-reduce-struct:{kind}:{cont}:{n}', kind='mv-struct')
+        res.append(('reduce', dec.decide(ctx, pairs(red, got, ctx), assumptions=assume)))
     common = dict(prims=sorted(ctx.prims), **dec.stats())
     nob = common.pop('obligations')
     bad = [(nm, r) for nm, r in res if r.status != 'unsat']
@@ -392,6 +397,9 @@ def replay(key, model, info):
             want = make_container(cont, outs)
         close, msg = trees_close(op.mv(x), want)
         return (not close), f'mv of {show(e)}: {msg}'
+    if kind == 'reduce':
+        close, msg = trees_close(op.reduce().mv(x), op.mv(x))
+        return (not close), f'reduce() of {show(e)} changes the result: {msg}'
     if kind == 'adjoint':
         y = model_tree(model, 'y', op.out_structure())
         dot = lambda a, b: float(sum(jnp.vdot(u, v) for u, v in zip(jax.tree.leaves(a), jax.tree.leaves(b))))  # noqa: E731
